@@ -195,8 +195,8 @@ def run(ctx):
     if len(cases) != n:
         raise MachineryError('read %d of %d cases' % (len(cases), n))
     rng = np.random.RandomState(ctx.seed + 4)
-    if ctx.quick and len(cases) > 3000:
-        idx = set(rng.choice(len(cases), size=3000, replace=False).tolist())
+    if ctx.quick and len(cases) > 5000:
+        idx = set(rng.choice(len(cases), size=5000, replace=False).tolist())
         cases = [c for j, c in enumerate(cases) if j in idx]
         ctx.exhaustive = False
     with tmp_dir(ctx) as d:
